@@ -59,7 +59,7 @@ FLAGSETS = [
 ]
 RULE = (
     "generated files of 30-45 small tests; each test has 1-4 comparisons over {==, reflected ==, <=, >=, in, [k]} with asserting and non-asserting (result ignored) forms, loops and "
-    "several snapshots per test; a test is BAD if some executed snapshot is empty or some comparison is false against the value in the source (position first/middle/last), else GOOD; "
+    "several snapshots per test, plus eleven snapshots executed by three tests each (parametrised test / helper called from three tests); a test is BAD if some executed snapshot is empty or some comparison is false against the value in the source (position first/middle/last), else GOOD; "
     "each file runs as a real `python -m pytest` session per flag set (13 flag sets incl. review with answers); case = (test, flag set); non-trivial = BAD test; "
     "distinct = (bad kind, op, position, asserting?, flag set)."
 )
